@@ -18,7 +18,7 @@ H = os.path.join(VERIF, "harness")
 
 CRATES = {
     "k_types": Crate("k_types", os.path.join(H, "k_types")),
-    "k_read": Crate("k_read", os.path.join(H, "k_read")),
+    "k_read": Crate("k_read", os.path.join(H, "k_read"), stubbing=True),
     "k_write": Crate("k_write", os.path.join(H, "k_write"), stubbing=True),
     # in-crate harnesses (hooked with #[cfg(googlefonts_fontations_verif)] #[path=...] mod verif_harness)
     "read_in": Crate("read_in", os.path.join(REPO, "read-fonts"), incrate=True, package="read-fonts"),
